@@ -1,6 +1,6 @@
 """C18 - surrogate models are consistent with their own predictions and data (engine E2).
 
-Three case families, all complete products of small structural axes (``mc.product.full`` sharded with
+Four case families, all complete products of small structural axes (``mc.product.full`` sharded with
 ``mc.core.pmap``):
 
 ``reg``     regressor setting (every class of ``RegressorFactory`` that overrides ``_predict_jacobian`` x its
@@ -8,6 +8,16 @@ Three case families, all complete products of small structural axes (``mc.produc
 ``tr``      transformer pipeline (length <= 2, thorough: <= 3) x data matrix (1/2 columns, constant columns).
 ``byname``  ``SurrogateDiscipline(<class name>, data, transformer, **settings)`` against a twin model built by the
             factory with the same arguments.
+``hist``    3-step histories: learn; predict / predict_jacobian (8 query points + the learning inputs, recorded);
+            compute a resampling-based quality measure (cross-validation, leave-one-out, bootstrap; fit_transformers on/off;
+            stored sub-models or not; MSE/R2/RMSE/MAE/ME); observe again.  Every regressor class x 5 (thorough 7) transformer
+            settings.  The observations must be bitwise unchanged (the model was not retrained) and the Jacobian must still be
+            the derivative of the prediction.  Signature: invariant + resampling method + mechanism (were the model's
+            transformers refitted in place?), not the regressor: the defect site is the resampler.
+
+Composite regressors (MOE with ``set_regressor``/``add_regressor_candidate``, RegressorChain members) are also enumerated
+with sub-models that have their OWN input/output transformers, crossed with the composite's transformer axis: the
+composite's ``predict`` and Jacobian must go through the same (transformed) API of the sub-models.
 
 Oracles (what the statement says, nothing more)
 
@@ -338,10 +348,24 @@ def regressor_settings(thorough: bool) -> list[dict]:
     add("MOERegressor", {"hard": True}, moe=[2, "RBFRegressor", {"function": "gaussian", "epsilon": 0.5}])
     add("MOERegressor", {"hard": True}, moe=[3, "LinearRegressor", {}])
     add("MOERegressor", {"hard": False}, moe=[2, "LinearRegressor", {}])
+    # composite models delegating to sub-models that have their OWN transformers (4th element: {"in": spec, "out": spec}):
+    # the composite's predict and Jacobian must go through the same (transformed) sub-model API
+    sc = {"in": ["Scaler"], "out": ["Scaler"]}
+    add("MOERegressor", {"hard": True}, sig="local-transformers", moe=[2, "PolynomialRegressor", {"degree": 2}, sc])
+    add("MOERegressor", {"hard": True}, sig="local-transformers", moe=[2, "LinearRegressor", {}, {"in": ["MinMaxScaler"], "out": []}])
+    add("MOERegressor", {"hard": True}, sig="local-transformers", moe=[2, "RBFRegressor", {"function": "gaussian", "epsilon": 0.5}, {"in": ["PCA"], "out": ["PCA"]}])
+    if thorough:
+        add("MOERegressor", {"hard": True}, sig="local-transformers", moe=[2, "LinearRegressor", {}, {"in": [], "out": ["StandardScaler"]}])
+        add("MOERegressor", {"hard": True}, sig="local-transformers", moe=[2, "PolynomialRegressor", {"degree": 2}, {"in": ["pipe", "MinMaxScaler", "PCA"], "out": ["MinMaxScaler"]}])
+        add("MOERegressor", {"hard": True}, sig="local-transformers", moe=[3, "LinearRegressor", {}, {"in": ["StandardScaler"], "out": ["MinMaxScaler"]}])
+        add("MOERegressor", {"hard": True}, sig="local-transformers,no-jacobian", moe=[2, "LinearRegressor", {}, {"in": [], "out": ["YeoJohnson"]}])
+        add("MOERegressor", {"hard": True}, sig="local-transformers,candidates", moe_candidates=[2, ["LinearRegressor", {}, {}], ["PolynomialRegressor", {"degree": [2]}, sc]])
     add("RegressorChain", chain=[["LinearRegressor", {}]])
     add("RegressorChain", chain=[["LinearRegressor", {}], ["RBFRegressor", {"function": "gaussian"}]])
     add("RegressorChain", chain=[["PolynomialRegressor", {"degree": 2}], ["RBFRegressor", {"function": "cubic", "epsilon": 0.5}]])
     add("RegressorChain", chain=[["RBFRegressor", {"function": "multiquadric"}], ["LinearRegressor", {}]])
+    add("RegressorChain", sig="member-transformers", chain=[["LinearRegressor", {}, {"in": ["MinMaxScaler"], "out": []}], ["RBFRegressor", {"function": "gaussian"}, {"in": ["StandardScaler"], "out": ["MinMaxScaler"]}]])
+    add("RegressorChain", sig="member-transformers", chain=[["PolynomialRegressor", {"degree": 2}, {"in": ["PCA"], "out": ["Scaler"]}]])
     add("OTGaussianProcessRegressor")
     add("OTGaussianProcessRegressor", {"covariance_model": "SquaredExponential"})
     add("OTGaussianProcessRegressor", {"covariance_model": "Matern32"})
@@ -420,13 +444,34 @@ def build_model(case, s, dataset=None):
     ds = dataset if dataset is not None else make_dataset(s)
     model = factory().create(reg["cls"], data=ds, transformer=transformer_dict(case, s), **settings)
     if reg.get("moe"):
-        k, name, kw = reg["moe"]
+        k, name, kw, *sub = reg["moe"]
         model.set_clusterer("KMeans", n_clusters=k)
-        model.set_regressor(name, **kw)
-    for name, kw in reg.get("chain", ()):
-        model.add_algo(name, **kw)
+        model.set_regressor(name, **kw, **sub_transformer(sub))
+    if reg.get("moe_candidates"):
+        k, *cands = reg["moe_candidates"]
+        model.set_clusterer("KMeans", n_clusters=k)
+        for name, kw, sub in cands:
+            tr = sub_transformer([sub])
+            model.add_regressor_candidate(name, **({"transformer": [tr["transformer"]]} if tr else {}), **kw)
+    for name, kw, *sub in reg.get("chain", ()):
+        model.add_algo(name, **kw, **sub_transformer(sub))
     model.learn()
     return model
+
+
+def sub_transformer(sub) -> dict:
+    """``{"transformer": {...}}`` for a sub-model of a composite regressor (empty when it has none)."""
+    if not sub or not (sub[0].get("in") or sub[0].get("out")):
+        return {}
+    return {"transformer": {key: make_transformer(sub[0][k]) for k, key in (("in", "inputs"), ("out", "outputs")) if sub[0].get(k)}}
+
+
+def sub_atoms(reg) -> list[str]:
+    """Transformer atoms of the sub-models of a composite setting."""
+    subs = [x[3] for x in (reg.get("moe"),) if x and len(x) > 3]
+    subs += [c[2] for c in reg.get("moe_candidates", [0])[1:] if len(c) > 2]
+    subs += [c[2] for c in reg.get("chain", ()) if len(c) > 2]
+    return [a for sdict in subs for k in ("in", "out") for a in spec_atoms(sdict.get(k) or [])]
 
 
 # ------------------------------------------------------------------------------------------------------------------
@@ -587,6 +632,7 @@ def check_reg(case, res) -> None:
         or (case["tin"] and case["tin"][0] == "var")
         or (case["tout"] and case["tout"][0] == "var")
         or (reg["cls"] == "MOERegressor" and not reg["settings"].get("hard", True))
+        or (reg["cls"] == "MOERegressor" and bool(set(sub_atoms(reg)) & NO_JAC))
         or reg["settings"].get("norm", "euclidean") != "euclidean"
         or reg.get("callable") == "no-derivative"
     )
@@ -1037,6 +1083,158 @@ def run_byname(case, tally) -> None:
             record_reg_violations(case, res, tally)
 
 
+# ------------------------------------------------------------------------------------------------------------------
+# family "hist": learn; predict (record); compute a resampling-based quality measure; predict again
+# ------------------------------------------------------------------------------------------------------------------
+# (method of the measure, its keyword arguments, fit_transformers of the measure)
+RESAMPLINGS = {
+    "cross_validation": ("compute_cross_validation_measure", {"n_folds": 5}, True),
+    "leave_one_out": ("compute_leave_one_out_measure", {}, True),
+    "bootstrap": ("compute_bootstrap_measure", {"n_replicates": 5}, True),
+    "cross_validation,ordered,stored": ("compute_cross_validation_measure", {"n_folds": 4, "randomize": False, "store_resampling_result": True}, True),
+    "cross_validation,fit_transformers=False": ("compute_cross_validation_measure", {"n_folds": 3}, False),
+    "bootstrap,stored": ("compute_bootstrap_measure", {"n_replicates": 3, "store_resampling_result": True}, True),
+    "leave_one_out,fit_transformers=False": ("compute_leave_one_out_measure", {}, False),
+}
+QUICK_HISTORIES = [  # (resampling, measure)
+    ("cross_validation", "MSEMeasure"),
+    ("leave_one_out", "RMSEMeasure"),
+    ("bootstrap", "MSEMeasure"),
+    ("cross_validation,ordered,stored", "R2Measure"),
+    ("cross_validation,fit_transformers=False", "MAEMeasure"),
+]
+MEASURES = ["MSEMeasure", "R2Measure", "RMSEMeasure", "MAEMeasure", "MEMeasure"]
+HIST_TRANSFORMERS = [
+    ([], []),
+    (["MinMaxScaler"], ["MinMaxScaler"]),  # the default of create_regression_model / SurrogateDiscipline
+    (["StandardScaler"], ["StandardScaler"]),
+    (["StandardScaler"], []),
+    ([], ["StandardScaler"]),
+    (["pipe", "MinMaxScaler", "PCA"], ["PCAscale"]),
+    ([], ["YeoJohnson"]),
+]
+
+
+def hist_regressors(thorough: bool) -> list[dict]:
+    """One or two representative settings of every regressor class (all the classes: the history is class-independent
+    machinery, BaseResampler, reached through every class's constructor and learn)."""
+    want = [
+        ("LinearRegressor", "default"),
+        ("PolynomialRegressor", "degree=2"),
+        ("RBFRegressor", "function=cubic,epsilon=0.5"),
+        ("RBFRegressor", "function=multiquadric,epsilon=None"),
+        ("TPSRegressor", "epsilon=None"),
+        ("PCERegressor", "degree=2;pspace=uniform"),
+        ("MOERegressor", "hard=True;moe=[2, 'LinearRegressor', {}]"),
+        ("RegressorChain", "default;chain=[['LinearRegressor', {}], ['RBFRegressor', {'function': 'gaussian'}]]"),
+        ("OTGaussianProcessRegressor", "default"),
+    ]
+    if thorough:
+        want += [
+            ("LinearRegressor", "penalty_level=0.1,l2_penalty_ratio=0.0"),
+            ("PolynomialRegressor", "degree=3"),
+            ("RBFRegressor", "function=gaussian,epsilon=1.0"),
+            ("RBFRegressor", "function=thin_plate,epsilon=0.5"),
+            ("PCERegressor", "degree=2,use_lars=True;pspace=uniform"),
+            ("OTGaussianProcessRegressor", "covariance_model=Matern32"),
+        ]
+    regs = {(r["cls"], r["label"]): r for r in regressor_settings(thorough)}
+    return [regs[k] for k in want]
+
+
+def _transformer_state(model, s) -> dict:
+    """What the model's transformers do to the learning data (bytes): their functional fitted state."""
+    out = {}
+    for key, tr in model.transformer.items():
+        data = s["X"] if key == "inputs" else s["Y"]
+        out[key] = np.asarray(tr.transform(data.copy()), dtype=float).tobytes()
+    return out
+
+
+def check_hist(case, res) -> None:
+    from gemseo.mlearning.regression.quality.factory import RegressorQualityFactory
+
+    s = make_set(case["table"], case["set"])
+    viol = res["violations"]
+    reg = case["reg"]
+    try:
+        model = build_model(case, s)
+    except Exception as e:  # noqa: BLE001
+        if third_party_training_failure(e):
+            res["outcome"] = f"hist:training-failed-in-third-party({type(e).__name__})"
+            return
+        raise
+    x_learn, y_learn, q, h = s["X"], s["Y"], s["Q"], s["h"]
+
+    def observe():
+        obs = {"predict(Q)": np.asarray(model.predict(q.copy()), dtype=float), "predict(X_learn)": np.asarray(model.predict(x_learn.copy()), dtype=float)}
+        try:
+            obs["predict_jacobian(Q)"] = np.asarray(model.predict_jacobian(q.copy()), dtype=float)
+        except NotImplementedError:
+            pass
+        return obs
+
+    before, state0 = observe(), _transformer_state(model, s)
+    method, kwargs, fit = RESAMPLINGS[case["resampling"]]
+    measure = RegressorQualityFactory().create(case["measure"], algo=model, fit_transformers=fit)
+    try:
+        value = getattr(measure, method)(**kwargs)
+        res["obs"]["measure"] = np.ravel(np.asarray(value, dtype=float)).tolist()[:2]
+        completed = True
+    except Exception as e:  # noqa: BLE001
+        # Oracle boundary: whether the measure can be computed for this model is not the statement (a resampled
+        # RegressorChain has no member, OpenTURNS may fail on a sub-sample); the model must be unchanged all the same.
+        res["obs"]["measure_raised"] = f"{type(e).__name__}: {str(e)[:120]}"
+        completed = False
+    after, state1 = observe(), _transformer_state(model, s)
+    changed = [k for k in before if k not in after or before[k].shape != after[k].shape or not np.array_equal(before[k], after[k], equal_nan=True)]
+    refitted = [k for k in state0 if state0[k] != state1.get(k)]
+    interp0 = float(np.nanmax(np.abs(before["predict(X_learn)"] - y_learn)))
+    interp1 = float(np.nanmax(np.abs(after["predict(X_learn)"] - y_learn)))
+    res["obs"].update(interpolation_error_before=interp0, interpolation_error_after=interp1, transformers_refitted=refitted)
+    if changed:
+        k = changed[0]
+        i = tuple(int(v) for v in np.argwhere(~(before[k] == after[k]))[0]) if before[k].shape == after[k].shape else ()
+        viol.append((
+            "model-changed-by-quality-measure",
+            f"{k} differs after {case['measure']}.{method}({kwargs}, fit_transformers={fit}): entry {i} {before[k][i]!r} -> {after[k][i]!r}; "
+            f"changed observations: {changed}; max |predict(x_learn) - y_learn| {interp0:.2e} -> {interp1:.2e}; "
+            f"transformers whose fitted state changed in place: {refitted or 'none'}",
+        ))
+    # the statement's own terms, on the model as it is after the measure: its Jacobian is the derivative of its prediction
+    if "predict_jacobian(Q)" in after:
+        ref, tol, scale, finite, _ = richardson(lambda p: model.predict(p), q, h)
+        tol = tol + LIB_GRADIENT_RTOL.get(reg["cls"], 0.0) * np.abs(ref)
+        usable = finite.copy()
+        if reg["cls"] == "MOERegressor":
+            d = q.shape[1]
+            cls_c = np.asarray(model.predict_class(q.copy())).reshape(NQ)
+            usable &= (np.asarray(model.predict_class(stencil(q, h).reshape(-1, d))).reshape(NQ, -1) == cls_c[:, None]).all(axis=1)
+        if usable.any() and after["predict_jacobian(Q)"].shape == ref.shape:
+            r = compare_jacobian(after["predict_jacobian(Q)"][usable], ref[usable], tol[usable], "predict_jacobian after the quality measure")
+            if r:
+                viol.append(("jacobian-vs-differences-after-quality-measure", r[1]))
+    res["cause"] = "transformers-refitted-in-place" if refitted else "other"
+    res["sharp"] = completed
+    res["outcome"] = "hist:" + ("measure-computed" if completed else "measure-raised") + (",model-changed" if changed else ",model-unchanged")
+
+
+def run_hist(case, tally) -> None:
+    res = _safe_check(check_hist, case)
+    key = ("hist", case["table"], case["set"], case["reg"]["cls"], case["reg"]["label"], reg_label(case), case["resampling"], case["measure"])
+    tally.case(key, nontrivial=res["sharp"], outcome=res["outcome"], sample={"case": case, "observed": res["obs"]} if sampled(key) else None)
+    tally.count("histories_with_refitted_transformers", int(bool(res["obs"].get("transformers_refitted"))))
+    seen = set()
+    for inv, msg in res["violations"]:
+        if inv in seen:
+            continue
+        seen.add(inv)
+        # signature: the invariant, the resampling method and the mechanism (not the regressor: the defect site is the
+        # resampler); the first, simplest case is kept by the tally
+        sig = {"invariant": inv, "resampling": case["resampling"].split(",")[0], "cause": res.get("cause", "raises")}
+        tally.violation(sig, case, f"{inv}: {case['reg']['cls']}({case['reg']['label']}) {reg_label(case)} on {case['set']} (table {case['table']}), history learn; predict; {case['measure']} by {case['resampling']}; predict\n{msg}")
+
+
 _QUIET = False
 
 
@@ -1051,7 +1249,7 @@ def _quiet() -> None:
 
 def run_case(case, tally) -> None:
     _quiet()
-    {"reg": run_reg, "tr": run_tr, "byname": run_byname}[case["family"]](case, tally)
+    {"reg": run_reg, "tr": run_tr, "byname": run_byname, "hist": run_hist}[case["family"]](case, tally)
 
 
 # ------------------------------------------------------------------------------------------------------------------
@@ -1076,13 +1274,26 @@ def enumerate_cases(table: int, thorough: bool, only: str | None = None):
             continue
         cases.append({"family": "reg", "table": table, "set": c["set"], "reg": c["reg"], "tin": tin, "tout": tout})
     # discipline by class name
-    for c in product.full({"set": sets, "reg": [r for r in regs if not (r.get("moe") or r.get("chain") or r.get("callable"))], "how": ["default", "explicit-none", "explicit-standard"]}):
+    for c in product.full({"set": sets, "reg": [r for r in regs if not (r.get("moe") or r.get("moe_candidates") or r.get("chain") or r.get("callable"))], "how": ["default", "explicit-none", "explicit-standard"]}):
         tin = tout = [] if c["how"] != "explicit-standard" else ["StandardScaler"]
         if c["reg"]["cls"] == "PCERegressor":
             tin = []
         cases.append({"family": "byname", "table": table, "set": c["set"], "reg": c["reg"], "transformer": "default" if c["how"] == "default" else "explicit", "tin": tin, "tout": tout})
+    # histories: learn; predict; resampling-based quality measure; predict
+    hsets = ["S1:x1->y1", "S2:x2->y1,z1"] if thorough else ["S2:x2->y1,z1"]
+    # thorough: every resampling variant with MSE + every measure class with plain cross-validation (the measure class only
+    # changes the formula applied to the predictions of the sub-models, not the resampling machinery)
+    histories = [(r, "MSEMeasure") for r in RESAMPLINGS] + [("cross_validation", m) for m in MEASURES[1:]] if thorough else QUICK_HISTORIES
+    hpairs = HIST_TRANSFORMERS if thorough else [p for p in HIST_TRANSFORMERS if bool(p[0]) == bool(p[1]) or "YeoJohnson" in p[1]]
+    for c in product.full({"pair": hpairs, "history": histories, "set": hsets, "reg": hist_regressors(thorough)}):
+        tin, tout = c["pair"]
+        if c["reg"]["cls"] == "PCERegressor" and tin:
+            continue  # documented: no input transformer for PCE
+        cases.append({"family": "hist", "table": table, "set": c["set"], "reg": c["reg"], "tin": tin, "tout": tout, "resampling": c["history"][0], "measure": c["history"][1]})
+    # the histories are the most expensive cases (5-16 trainings each): scheduled first so that they do not form a tail
+    cases = [c for c in cases if c["family"] == "hist"] + [c for c in cases if c["family"] != "hist"]
     if only:
-        cases = [c for c in cases if only in (c["family"] + ":" + str(c.get("reg", {}).get("cls", "")) + ":" + str(c.get("reg", {}).get("label", "")) + ":" + (reg_label(c) if "tin" in c else spec_label(c["pipe"])) + ":" + c.get("set", c.get("matrix", "")))]
+        cases = [c for c in cases if only in (c["family"] + ":" + str(c.get("reg", {}).get("cls", "")) + ":" + str(c.get("reg", {}).get("label", "")) + ":" + (reg_label(c) if "tin" in c else spec_label(c["pipe"])) + ":" + c.get("set", c.get("matrix", "")) + ":" + c.get("resampling", "") + ":" + c.get("measure", ""))]
     return cases, dropped, {"sets": sets, "regressor_settings": len(regs), "transformer_pairs": len(pairs), "group_pipelines": sum(len(x) for x in group_pipelines(thorough)), "transformer_family_pipelines": len(tr_pipelines(thorough))}
 
 
@@ -1104,9 +1315,11 @@ def run(ctx):
         "level": LEVEL,
         "samples": cases[:3],  # only used when no executed case was sampled (tiny --only runs)
         "rule": "full product (regressor setting x input pipeline x output pipeline x learning set), transformer pipelines x data matrices, "
-        "and by-name surrogate disciplines; 8 query points per case.  A case is non-trivial when the model offered a Jacobian and, for at least one "
+        "by-name surrogate disciplines, and 3-step histories (learn; predict; resampling-based quality measure; predict again: regressor class x "
+        "transformer setting x resampling method x measure); 8 query points per case.  A case is non-trivial when the model offered a Jacobian and, for at least one "
         "query point, the a-posteriori error estimate of the Richardson reference was below 1e-5 x the derivative scale (so a wrong derivative "
-        "cannot hide in the tolerance); transformer cases: idem for compute_jacobian, or the inverse identity for power transforms",
+        "cannot hide in the tolerance); transformer cases: idem for compute_jacobian, or the inverse identity for power transforms; histories: the "
+        "quality measure was computed (sub-models were trained) between the two observations",
         "exhaustive": not getattr(ctx, "only", None),
         "bounds": {
             "table": table,
@@ -1114,6 +1327,8 @@ def run(ctx):
             "pipeline_length": 3 if ctx.thorough else 2,
             "transformer_product": "short x short complete, length-2 x {none, MinMaxScaler, PCA, YeoJohnson} both ways, length-2 on both groups" if ctx.thorough else "<= 1 transformed group + same/different single transformer on both groups",
             "cases_per_family": fam,
+            "history": "learn; predict/predict_jacobian on 8 query points and on the learning inputs; compute measure; same observations, bitwise equal",
+            "resampling_methods": list(RESAMPLINGS) if ctx.thorough else sorted({r for r, _ in QUICK_HISTORIES}),
             **sizes,
         },
         "assumptions": [
@@ -1121,6 +1336,7 @@ def run(ctx):
             "the reference derivative is a Richardson-extrapolated central difference of the model's own predict with an a-posteriori error estimate; "
             "cases whose estimate exceeds 1e-5 x the derivative scale are counted as 'reference-unreliable', not as checked",
             "NotImplementedError from predict_jacobian / compute_jacobian is the documented 'no derivative' answer (power transforms, per-variable transformers, soft MOE)",
+            "whether a resampling-based measure can be computed at all (a resampled RegressorChain has no member) is not the statement: the model must be unchanged either way",
             "Box-Cox only on strictly positive groups; lossy reductions, GP/chain interpolation and the way Pipeline fits its members are outside the statement",
         ],
     }
@@ -1129,7 +1345,7 @@ def run(ctx):
 def replay(case, ctx):
     _quiet()
     fam = case.get("family", "reg")
-    res = _safe_check({"reg": check_reg, "tr": check_tr, "byname": check_byname}[fam], case)
+    res = _safe_check({"reg": check_reg, "tr": check_tr, "byname": check_byname, "hist": check_hist}[fam], case)
     return {
         "case": case,
         "outcome": res["outcome"],
